@@ -188,6 +188,44 @@ L_others:
   s_endpgm
 """
 
+K['k10_many_scalar_loads'] = PRO + """
+  s_load_dwordx2 s[8:9], s[0:1], 0x0
+  s_waitcnt lgkmcnt(0)
+  s_load_dword s10, s[8:9], 0x4
+  s_load_dword s11, s[8:9], 0x8
+  s_load_dword s12, s[8:9], 0xc
+  s_load_dword s13, s[8:9], 0x10
+  s_load_dword s14, s[8:9], 0x14
+  s_load_dword s15, s[8:9], 0x18
+  s_waitcnt lgkmcnt(0)
+  s_add_u32 s16, s10, s11
+  s_add_u32 s16, s16, s12
+  s_add_u32 s16, s16, s13
+  s_add_u32 s16, s16, s14
+  s_add_u32 s16, s16, s15
+  v_add_u32 v6, vcc, s16, v0
+""" + gaddr('v7','v8','s4','s5') + """
+  flat_store_dword v[7:8], v6
+  s_waitcnt vmcnt(0)
+  s_endpgm
+"""
+K['k11_many_stores'] = PRO + """
+  s_load_dwordx2 s[8:9], s[0:1], 0x18
+  s_load_dwordx2 s[12:13], s[0:1], 0x28
+  s_waitcnt lgkmcnt(0)
+""" + gaddr('v7','v8','s4','s5') + gaddr('v9','v10','s8','s9') + gaddr('v13','v14','s12','s13') + """
+  v_add_u32 v4, vcc, 1, v0
+  v_add_u32 v5, vcc, 2, v0
+  v_add_u32 v6, vcc, 3, v0
+  flat_store_dword v[7:8], v4
+  flat_store_dword v[9:10], v5
+  flat_store_dword v[13:14], v6
+  s_waitcnt vmcnt(1)
+  flat_store_dword v[7:8], v6
+  s_waitcnt vmcnt(0)
+  s_endpgm
+"""
+
 def assemble(name, src, mcpu='gfx803'):
     p = subprocess.run(['llvm-mc-14', '-arch=amdgcn', '-mcpu=' + mcpu, '-show-encoding'], input=src, capture_output=True, text=True)
     if p.returncode != 0 or 'error' in p.stderr:
